@@ -26,3 +26,21 @@ package ssh
 //@   ensures result1 != nil && result0 == nil
 //@   ensures [one-event] s.c.sent == old(s.c.sent) + 1
 //@   modifies ghost(sent)
+//
+// ---- SSH host key (property C18): load, or generate and store; what is used is what is stored ----
+// The key-value store is seen through the ghost maps (ghaskv, gkv) of storage.Storage.
+//@ uf keyof(string) *privateKey
+//@ func makePrivateKey
+//@   trusted
+//@   ensures [assumed-fn] result == keyof(str(data))
+//@   modifies nothing
+//@ func generateKey
+//@   trusted
+//@   modifies nothing
+//
+//@ func (*sshStorage).PrivateKey
+//@   check safety, frame
+//@   ensures [stored] old(s.Storage.ghaskv["private-key"]) ==> result == keyof(old(s.Storage.gkv["private-key"])) && s.Storage.gkv["private-key"] == old(s.Storage.gkv["private-key"])
+//@   ensures [generated] !old(s.Storage.ghaskv["private-key"]) && result != nil ==> s.Storage.ghaskv["private-key"] && result == keyof(s.Storage.gkv["private-key"])
+//@   ensures [others] forall k string :: k != "private-key" ==> s.Storage.ghaskv[k] == old(s.Storage.ghaskv[k]) && s.Storage.gkv[k] == old(s.Storage.gkv[k])
+//@   modifies ghost(ghaskv), ghost(gkv), ghost(gsetfail)
